@@ -354,6 +354,17 @@ class Body:
     def local_ty(self, l):
         return self.locals[l]['ty']
 
+    def call_site_of(self, pos):
+        """for a position inside an inlined copy: the position of the call it replaces in the caller (else pos itself)"""
+        bi = pos[0]
+        seen = set()
+        while 'inl_site' in self.blocks[bi] and bi not in seen:
+            seen.add(bi)
+            bi = self.blocks[bi]['inl_site']
+        if bi == pos[0]:
+            return pos
+        return (bi, len(self.blocks[bi]['stmts']))
+
     def upvar_of(self, pl):
         """name of the captured variable a place inside the closure environment refers to, or None"""
         if not isinstance(pl, dict) or pl.get('l') != 1 or not pl.get('p'):
